@@ -197,6 +197,9 @@ def run(tier):
     # every number lexeme over the alphabet of spec/Numbers.tla in every kind of numeric slot
     from .. import numbers
     numbers.run(ck, "C01", tier, loads, dumps)
+    # every "#..." string over the alphabet of spec/HexLex.tla (hex colour or plain string), both quotes in and out
+    from .. import hexlex
+    hexlex.run(ck, "C01", tier, loads, impl.dumper)
     verdicts = tracecheck.validate("TraceRoundTrip", records, "c01", ck=ck, chunk=800, canary=canary)
     skipped = 0
     for tid, v in verdicts.items():
